@@ -324,7 +324,7 @@ fn alphabet(level: u8) -> Vec<Op> {
         // minimal: one transaction driven forward
         0 => vec![Op::Begin(0), Op::Yes(0, 0), Op::Yes(0, 1), Op::Commit(0)],
         // one transaction, all outcomes, plus recovery-side calls
-        1 => vec![Op::Begin(0), Op::Yes(0, 0), Op::Yes(0, 1), Op::No(0, 1), Op::Commit(0), Op::Abort(0), Op::Timeouts, Op::RecoverAndComplete],
+        1 => vec![Op::Begin(0), Op::Yes(0, 0), Op::Yes(0, 1), Op::No(0, 0), Op::No(0, 1), Op::Commit(0), Op::Abort(0), Op::Timeouts, Op::RecoverAndComplete],
         // two transactions
         2 => vec![Op::Begin(0), Op::Yes(0, 0), Op::Yes(0, 1), Op::Commit(0), Op::Abort(0), Op::Begin(1), Op::Yes(1, 0), Op::Yes(1, 1), Op::Commit(1), Op::Timeouts],
         // continuation: recovery calls and a new transaction
